@@ -113,6 +113,10 @@ fn hist_cfg_for(seed: u64, m: &HashMap<String, String>) -> hist::HistCfg {
         cfg.nkeys = cfg.nkeys.max(6);
         cfg.opts.memtable = cfg.opts.memtable.max(2500);
     }
+    if m.contains_key("giant-keys") {
+        // (the giant universe has at most six keys)
+        cfg.nkeys = cfg.nkeys.min(6);
+    }
     if cfg.profile == "straddle" {
         // (the prologue builds its layout with exactly these sizes)
         cfg.nkeys = cfg.nkeys.max(11);
@@ -180,7 +184,9 @@ fn cmd_hist(m: &HashMap<String, String>) -> i32 {
                 Some(r) => Universe::from_keys(r.keys.clone()),
                 None => {
                     let mut rng = StdRng::seed_from_u64(seed ^ 0xabcdef);
-                    if cfg.adversarial_keys {
+                    if m.contains_key("giant-keys") {
+                        Universe::giant(cfg.nkeys.min(6))
+                    } else if cfg.adversarial_keys {
                         Universe::random(&mut rng, cfg.nkeys)
                     } else {
                         Universe::plain(cfg.nkeys)
@@ -271,7 +277,10 @@ fn cmd_crash(m: &HashMap<String, String>) -> i32 {
             cfg.big_values = true;
         }
         let mut rng = StdRng::seed_from_u64(seed ^ 0xabcdef);
-        let u = Arc::new(if cfg.adversarial_keys {
+        let u = Arc::new(if m.contains_key("giant-keys") {
+            cfg.nkeys = cfg.nkeys.min(6);
+            Universe::giant(cfg.nkeys)
+        } else if cfg.adversarial_keys {
             Universe::random(&mut rng, cfg.nkeys)
         } else {
             Universe::plain(cfg.nkeys)
